@@ -269,7 +269,8 @@ def secret_texts(ty, v, acc):
 
 
 VALUE_STRINGS = ["plain", "C:\\new\\tunes", "\\\\nas\\share", "D:\\backup", "line1\nline2", "tab\there", "\\", "end\\",
-                 "\\n", "\\\\n", "a\\tb\\\\", "x", "é\\né", "two words", "semi;colon", "a=b", "\\t\\n\\\\"]
+                 "\\n", "\\\\n", "a\\tb\\\\", "x", "é\\né", "two words", "semi;colon", "a=b", "\\t\\n\\\\",
+                 "Top 40 #1 hits", "a\t#b", "#lead", "C# minor", "x #", "pw #1", "x ;y"]
 
 
 def gen_value(ty, rng):
@@ -659,15 +660,34 @@ def format_stage(chk, scratch, schemas, base):
             c = chk.replay_case
             ss = schemas if c.get("schemas") == "bundled" else [c12.ty_from_json(s) for s in c["schemas"]]
             todo = [(ss, c["raw"], "replay")]
-        for ss, raw_t, label in todo:
-            if any(cfglib.has_final_sigma_hazard(x) for kv in raw_t.values() for kx in kv.items() for x in kx):
-                continue
-            raw = {sec: {k: scratch.subst(v) for k, v in kv.items()} for sec, kv in raw_t.items()}
-            _rec, out = c12.run_validate(ss, raw)
-            if out[0] != "ok":
-                continue
-            cfg, errs = out[1], out[2]
-            case = {"stage": "format", "schemas": "bundled" if ss is schemas else [c12.strip_fn(s) for s in ss], "raw": raw_t}
+        # value-first configs: the values are built directly, not obtained by loading text
+        for _ in range(n // 2):
+            ss, cfg = gen_direct_config(rng)
+            todo.append((ss, None, "value-first", cfg))
+        for c in corpus("format-values"):
+            ss = [c12.ty_from_json(s_) for s_ in c["schemas"]]
+            cfg = {sec: {k: value_from_json(key_type(ss, sec, k), v) for k, v in kv.items()} for sec, kv in c["config"].items()}
+            todo.append((ss, None, "corpus-values", cfg))
+        if chk.replay_case and chk.replay_case.get("stage") == "format" and "config" in chk.replay_case:
+            c = chk.replay_case
+            ss = [c12.ty_from_json(s_) for s_ in c["schemas"]]
+            cfg = {sec: {k: value_from_json(key_type(ss, sec, k), v) for k, v in kv.items()} for sec, kv in c["config"].items()}
+            todo = [(ss, None, "replay", cfg)]
+        for item in todo:
+            ss, raw_t, label = item[:3]
+            if raw_t is None:
+                cfg, errs = item[3], {}
+                case = {"stage": "format", "schemas": [c12.strip_fn(s) for s in ss],
+                        "config": {sec: {k: value_to_json(v) for k, v in kv.items()} for sec, kv in cfg.items()}}
+            else:
+                if any(cfglib.has_final_sigma_hazard(x) for kv in raw_t.values() for kx in kv.items() for x in kx):
+                    continue
+                raw = {sec: {k: scratch.subst(v) for k, v in kv.items()} for sec, kv in raw_t.items()}
+                _rec, out = c12.run_validate(ss, raw)
+                if out[0] != "ok":
+                    continue
+                cfg, errs = out[1], out[2]
+                case = {"stage": "format", "schemas": "bundled" if ss is schemas else [c12.strip_fn(s) for s in ss], "raw": raw_t}
             outs = {}
             for display, disable in ((False, False), (True, False), (False, True)):
                 o = run_format(ss, cfg, display, disable)
@@ -682,7 +702,7 @@ def format_stage(chk, scratch, schemas, base):
                 builders.append(lambda I, ss=ss, cfg=cfg, d=display, dis=disable, o=o:
                                 f"({g_stables(config_values(cfg), I)}, {g_list([c12.g_schema(s, I) for s in ss])}, "
                                 f"{g_config(ss, cfg, I)}, {g_bool(d)}, {g_bool(dis)}, {g_fres(o, I)})")
-            chk.count(1, nontrivial_key=json.dumps(raw_t, sort_keys=True) if any(
+            chk.count(1, nontrivial_key=json.dumps(raw_t if raw_t is not None else case["config"], sort_keys=True) if any(
                 isinstance(v, (tuple, frozenset)) or (isinstance(v, str) and any(c in v for c in SPECIAL))
                 for v in config_values(cfg)) else None)
             chk.dist(f"format:{label}")
@@ -763,12 +783,55 @@ def format_stage(chk, scratch, schemas, base):
     chk.obligation("corr:format", "correspondence", ok)
 
 
+def gen_direct_config(rng):
+    """A schema list and a config over it whose values are built directly (gen_value)."""
+    S, So = ("String", False, None, None), ("String", True, None, None)
+    pool = [S, So, ("Secret", False, None), ("Secret", True, "lower"), ("Integer", False, None, None, None), ("Boolean", False),
+            ("List", True, False, S), ("List", True, True, S), ("Pair", False, False, "|", S, S),
+            ("Pair", False, True, "=", S, ("Secret", False, None)), ("List", True, False, ("Pair", False, False, "=", S, S)),
+            ("LogLevel",), ("LogColor",)]
+    keys = [(name, rng.choice(pool)) for name in rng.sample(["title", "name", "password", "items", "mount", "mounts", "level", "n"],
+                                                            rng.randint(1, 5))]
+    mt = rng.choice([S, ("Secret", False, None), ("Pair", False, False, "|", S, S), ("LogLevel",)])
+    ss = [("config", "alpha", tuple(keys)), ("map", "beta", mt)]
+    cfg = {"alpha": {k: gen_value(t, rng) for k, t in keys}}
+    names = rng.sample(["mopidy", "pykka", "x.y"], rng.randint(0, 2))
+    if names:
+        cfg["beta"] = {k: gen_value(mt, rng) for k in names}
+    return ss, cfg
+
+
+class FakeExtension:
+    """An extension whose defaults contain '#' in every position the INI syntax can carry."""
+
+    dist_name, ext_name, version = "Mopidy-Fake", "fake", "0.1"
+    EXPECT = {"enabled": True, "title": "Top 40 #1 hits", "lead": "#lead", "tabbed": "a\t#b", "tail": "x #",
+              "token": "pw #1", "items": ("a #1", "b# c", "d")}
+
+    def get_default_config(self):
+        return ("[fake]\nenabled = true\ntitle = Top 40 #1 hits\nlead = #lead\ntabbed = a\\t#b\ntail = x #\n"
+                "token = pw #1\nitems =\n  a #1\n  b# c\n  d\n")
+
+    def get_config_schema(self):
+        from mopidy.config import schemas as S
+        from mopidy.config import types as T
+
+        s = S.ConfigSchema("fake")
+        s["enabled"] = T.Boolean()
+        for k in ("title", "lead", "tabbed", "tail"):
+            s[k] = T.String()
+        s["token"] = T.Secret()
+        s["items"] = T.List()
+        return s
+
+
 def format_initial_probe(chk, schemas, tmpdir):
     """format_initial over the bundled extensions: uncommented, it loads back to the defaults."""
     from mopidy import config as C
     from mopidy import file, http, m3u, softwaremixer, stream
 
     data = [pytypes.SimpleNamespace(extension=m.Extension()) for m in (http, file, m3u, softwaremixer, stream)]
+    data.append(pytypes.SimpleNamespace(extension=FakeExtension()))
     case = {"stage": "format_initial"}
     try:
         text = C.format_initial(data)
@@ -797,6 +860,11 @@ def format_initial_probe(chk, schemas, tmpdir):
         d = first_diff(want, got)
         chk.monitor_failure("format_load_roundtrip", {"call": "format_initial", "leaf": str(d[1])},
                             f"format_initial (uncommented) loads back differently at {d[0]}/{d[1]}", case)
+    # the extension defaults written down by hand: what the initial file must carry
+    for k, v in FakeExtension.EXPECT.items():
+        if got.get("fake", {}).get(k) != v:
+            chk.monitor_failure("format_load_roundtrip", {"call": "format_initial", "leaf": "hash-in-value"},
+                                f"initial config file: fake/{k} = {v!r} comes back as {got.get('fake', {}).get(k)!r}", case)
     # with every line commented out the file sets nothing
     p.write_text(text)
     raw = C._load([p], [], [])
